@@ -492,7 +492,12 @@ def int_array(x):
         x = np.array(x)
 
     if x.dtype != complex:
-        x = np.array(list(map(int, x.flatten()))).reshape(x.shape)
+        ints = list(map(int, x.flatten()))
+        x_int = np.array(ints)
+        if x_int.dtype.kind == 'f':
+            # python integers beyond 64 bits mixed with shorter ones: numpy would turn them into float64
+            x_int = np.array(ints, dtype=object)
+        x = x_int.reshape(x.shape)
     else:
         x_real = np.vectorize(lambda v: v.real)(x)
         x_imag = np.vectorize(lambda v: v.imag)(x)
